@@ -17,7 +17,8 @@ func init() {
 
 type fieldAccess struct {
 	write bool
-	held  bool
+	held  bool            // writeMu
+	locks map[string]bool // every mutex held (by owner.field)
 	root  string
 	fn    string
 	pos   string
@@ -131,7 +132,13 @@ func runACC06(p *Prog, r *RuleRun) {
 			return // object allocated on this call path, not yet shared
 		}
 		owner[fv] = typeShort(named) + "." + fv.Name()
-		acc[fv] = append(acc[fv], fieldAccess{write: write, held: f.Must["HELD"], root: funcDisplay(cx.Fr.Root().Fn), fn: funcDisplay(cx.Fr.Fn), pos: posOf(p, ins)})
+		locks := map[string]bool{}
+		for t := range f.Must {
+			if strings.HasPrefix(t, "HELD:") {
+				locks[t] = true
+			}
+		}
+		acc[fv] = append(acc[fv], fieldAccess{write: write, held: f.Must["HELD"], locks: locks, root: funcDisplay(cx.Fr.Root().Fn), fn: funcDisplay(cx.Fr.Fn), pos: posOf(p, ins)})
 	}
 	spec := &OrdSpec{Name: "lockset",
 		Call: func(cx *Ctx, ci ssa.CallInstruction) CallInfo {
@@ -139,14 +146,30 @@ func runACC06(p *Prog, r *RuleRun) {
 			if info.Event == "LOCK" || info.Event == "UNLOCK" {
 				return info
 			}
+			// any other mutex held in a struct field
+			switch n := eventName(ci); n {
+			case "sync.Mutex.Lock", "sync.RWMutex.Lock", "sync.RWMutex.RLock", "sync.Mutex.Unlock", "sync.RWMutex.Unlock", "sync.RWMutex.RUnlock":
+				if len(ci.Common().Args) > 0 {
+					if fv := fieldOfAddr(ci.Common().Args[0]); fv != nil {
+						if strings.HasSuffix(n, "Lock") && !strings.HasSuffix(n, "Unlock") {
+							return CallInfo{Event: "MLOCK:" + fv.Name(), Primitive: true}
+						}
+						return CallInfo{Event: "MUNLOCK:" + fv.Name(), Primitive: true}
+					}
+				}
+			}
 			return CallInfo{Inline: true}
 		},
 		OnEvent: func(cx *Ctx, ev, phase string, ins ssa.Instruction, f *Fact) {
-			switch ev {
-			case "LOCK":
-				f.Add("HELD")
-			case "UNLOCK":
-				f.Drop("HELD")
+			switch {
+			case ev == "LOCK":
+				f.Add("HELD", "HELD:writeMu")
+			case ev == "UNLOCK":
+				f.Drop("HELD", "HELD:writeMu")
+			case strings.HasPrefix(ev, "MLOCK:") && phase == "call":
+				f.Add("HELD:" + strings.TrimPrefix(ev, "MLOCK:"))
+			case strings.HasPrefix(ev, "MUNLOCK:") && phase == "call":
+				f.Drop("HELD:" + strings.TrimPrefix(ev, "MUNLOCK:"))
 			}
 		},
 		Instr: func(cx *Ctx, ins ssa.Instruction, f *Fact) {
@@ -193,11 +216,17 @@ func runACC06(p *Prog, r *RuleRun) {
 		var conflict string
 		for _, w := range writes {
 			for _, a := range as {
-				if w.held && a.held {
+				common := false
+				for l := range w.locks {
+					if a.locks[l] {
+						common = true
+					}
+				}
+				if common {
 					continue
 				}
-				conflict = fmt.Sprintf("written by %s (in %s at %s, writeMu held: %v) while %s %s it (in %s at %s, writeMu held: %v)",
-					w.root, w.fn, w.pos, w.held, a.root, map[bool]string{true: "writes", false: "reads"}[a.write], a.fn, a.pos, a.held)
+				conflict = fmt.Sprintf("written by %s (in %s at %s, locks held: %v) while %s %s it (in %s at %s, locks held: %v)",
+					w.root, w.fn, w.pos, sortedKeys(w.locks), a.root, map[bool]string{true: "writes", false: "reads"}[a.write], a.fn, a.pos, sortedKeys(a.locks))
 				break
 			}
 			if conflict != "" {
@@ -205,7 +234,7 @@ func runACC06(p *Prog, r *RuleRun) {
 			}
 		}
 		if conflict == "" {
-			r.OK(key, writes[0].pos, fmt.Sprintf("%d accesses from API roots, all under writeMu", len(as)))
+			r.OK(key, writes[0].pos, fmt.Sprintf("%d accesses from API roots; every write shares a held mutex with every other access", len(as)))
 		} else {
 			r.Fail(key, writes[0].pos, "field "+key+" is shared between concurrent API calls without a common lock or atomic access: "+conflict+" — a data race, and the reader can observe the torn-down value")
 		}
